@@ -24,6 +24,8 @@ MANIFEST = dict(
                   kind_free_text="differential: real DocumentService/ProjectManager on a materialised directory tree vs extracted Coq model, per-operation observation = answer + sorted dump of the path map (identity, opened version, saved flag)")],
 )
 
+MANIFEST["text"] += " Fourth session: cased non-ASCII letters (escapes whose ASCII case mirrors the letter's) and dot-directories in the generated trees."
+
 ASSUMPTIONS = [
     "file and directory names are over [A-Za-z0-9_.] plus a space, %, #, + and one caseless non-ASCII letter (written ~1..~5 in the model's names and decoded by the harness), none is '.' or '..'; str::to_uppercase on stems is modelled as ASCII upper-casing; four cased non-ASCII letter pairs with one-to-one case mappings (é ü ж ω) are generated through escapes whose ASCII letter case mirrors the letter's, letters with special case mappings (ß, final sigma, dotted I) are not; the map is keyed by file-system paths, so Url::from_file_path/to_file_path must be mutually inverse also on names a URI percent-encodes - checked by the correspondence, not assumed",
     "no symbolic links INSIDE the workspace (15% of the cases reach the whole workspace through a symbolic link: keys must still be the canonical paths); all directories are readable; the file system is case-sensitive and does not change during one index walk",
